@@ -1,9 +1,47 @@
+_MODEL = ("model Das/Coordinator.v hand-written after das/state.go, coordinator.go, worker.go, checkpoint.go, daser.go, store.go, backoff.go; "
+          "tied by the correspondence harness harness/das/zz_verif_c04_*_test.go which drives the REAL DASer (NewDASer/Start/Stop, the real "
+          "coordinator and worker goroutines, the real checkpoint store on a map datastore) one event at a time and whose observations "
+          "(statistics, failed/inRetry attempts, worker states, checkpoint-now, persisted checkpoint) are re-computed by the model inside Coq "
+          "(vm_compute) after every event of every history")
+_TB = [
+    _MODEL,
+    "harness mechanics: the coordinator goroutine is held inside its own statistics rendezvous (waitCh) between events; finished workers' "
+    "results are taken from resultCh by the harness and handed to the coordinator in the order of the history; the Availability mock parks "
+    "every SharesAvailable call until released with a scripted outcome; header store, subscription and datastore are mocks",
+    "time: retryAttempt.after is real time with a back-off table in hours; back-off expiry is simulated by rewriting 'after' to a past/future "
+    "instant according to a virtual clock; a tick is always followed by a wake-up pass of the coordinator (the schedule 'time passes, then a head "
+    "arrives at a coordinator blocked in select' is covered by the theorems but not replayed on the implementation); time.Now() is assumed "
+    "strictly increasing between a resume and the first retry scan",
+    "Go's random map iteration in retryJob is an explicit choice list in the model's events; the harness restricts the set of due heights so "
+    "that the choice is forced, except right after Start where the observed choice is recorded",
+    "the background store goroutine is disabled (interval 0); its tick is replayed by the harness calling the real getCheckpoint and store "
+    "with the rule 'SampleFrom > prev' re-implemented in 3 lines",
+    "the header store is assumed to contain every announced head at restart (Restart's head is at least the largest announced head); "
+    "Go uint64 heights are modelled as unbounded Z (harness heights stay below 2^20)",
+    "most cases carry a 31-bit fingerprint of the canonical serialisation of the observation (same serialisation and polynomial hash on both "
+    "sides) instead of the record itself; 30 histories per run carry full records",
+    "Go-level data races inside the coordinator are outside the model (it is single-threaded by construction; worker<->coordinator hand-off "
+    "is modelled at channel granularity)",
+]
+
 SPEC = dict(
     id="C04",
     props_file="Props/C04.v",
     harness=[dict(pkg="das", test="TestVerifC04", timeout=900, timeout_thorough=3000)],
     allowed_axioms=[],
-    level_text="(draft)",
-    rule="(draft)",
-    trusted_base=[],
+    level_text=("Machine-checked theorems (Coq) over an executable model of the DASer coordinator at channel/lock granularity: for EVERY history "
+                "of heads (consecutive, skipping, duplicate, stale), worker steps with any outcome, deliveries, statistics/checkpoint requests, "
+                "ticks, stops, crashes and restarts, every sampling range, concurrency limit and back-off table: the coverage invariant, "
+                "SampledChainHead below every unsampled height, and restart coverage for every checkpoint that can be taken or lie on disk. "
+                "The model follows the repaired code (fix-c04-1 + fix-c13-1..3); the statement is proved false of the code before fix-c04-1 "
+                "(C04_restart_cover_refuted) and that history is replayed on the implementation. The model is re-validated against the real "
+                "DASer on ~430 random + directed histories (~20k events) per quick run, with implementation-level oracles after every event "
+                "and after a final 'everything succeeds' drain."),
+    rule=("a history = random configuration (range 1-4, limit 1-4, 6 back-off tables, tail 1-3, up to 12 stored heads) and 15-75 events chosen "
+          "from what the implementation can do (head: next/skipping/duplicate/stale/far; step of any live worker with ok/fail/outside/cancel "
+          "as different concrete errors; delivery of any finished worker; wake; background checkpoint; tick; stop; crash; restart with moved "
+          "tail/head), then a drain phase in which every sampler call succeeds. One case = one history with the observation after every event. "
+          "Non-trivial = at least one restart after the first start and at least one checkpoint (background or stop) taken while a worker was in flight; "
+          "distinct = distinct Coq case term."),
+    trusted_base=_TB,
 )
